@@ -305,12 +305,13 @@ def r4(rr, repo):
 @rule('C04.R5', 'a silent consumer stops being waited for only by CLOSE or after ZMQ_CONN_TIMEOUT without any message')
 def r5(rr, repo):
     za = anchors(repo)
-    dels = [n for n in ast.walk(za.S_cls) if isinstance(n, ast.Delete) and any('clients[' in U(t) for t in n.targets)]
+    dels = [n for n in ast.walk(za.S_cls) if isinstance(n, ast.Delete) and any('clients[' in U(t) for t in n.targets)] + \
+           [c for c in q.calls_in(za.S_cls) if isinstance(c.func, ast.Attribute) and c.func.attr == 'pop' and U(c.func.value) in ('clients', 'self.clients') and c.args]      # clients.pop(key, None) removes as well
     rr.ob('clients are removed at exactly two places (CLOSE, timeout)', len(dels) == 2 and all(enclosing_function(d) is za.S_poll for d in dels), za.mod, za.S_poll, witness=f'{len(dels)} sites', key='del-sites')
     seen = set()
     for p in za.paths('poll'):
         for e in p.events:
-            if e.kind == 'del' and e.term.startswith('self.clients['):
+            if (e.kind == 'del' and e.term.startswith('self.clients[')) or (e.kind == 'call' and e.term in ('self.clients.pop', 'clients.pop')):      # del clients[k] / clients.pop(k, None)
                 pc = p.pc[:e.pc_len]
                 close = any(kk.startswith('eq(') and (kk.startswith('eq(-3,') or 'MSG_ID_CLOSE' in kk) and v is True for kk, v in pc)
                 i = za.client_fields.index('t_last')
@@ -355,7 +356,7 @@ def r5(rr, repo):
         to, _ = timed_out(za, p)
         if to:
             k += 1
-            d = [e for e in p.events if e.kind == 'del' and 'clients[' in e.term]
+            d = [e for e in p.events if (e.kind == 'del' and 'clients[' in e.term) or (e.kind == 'call' and e.term in ('self.clients.pop', 'clients.pop'))]
             rr.ob('a timed-out client is always dropped from the wait set', bool(d), za.mod, loop, witness=p.pc_text()[-260:], key='timeout-always-drops')
     rr.floor('timed-out rows of the per-client table', k, 1, za.mod, loop)
 
@@ -382,7 +383,7 @@ def r6(rr, repo):
             if e.kind == 'store' and e.term.startswith('self.clients['):
                 k += 1
                 key = e.term[len('self.clients['):-1]
-                ok = "['cid']" in key and ".get('uid'" in key and '+' in key
+                ok = "['cid']" in key and ".get('uid'" in key and ('+' in key or (key.startswith(("f'", 'f"')) and key.index("['cid']") < key.index(".get('uid'")))      # concatenated or formatted, cid first
                 rr.ob("the wait set is keyed by env['cid'] + env.get('uid', '')", ok, za.mod, e.node, witness=key[-120:], key='keyed-by-cid-uid')
     rr.floor('client stores in poll_recv', k, 1, za.mod, za.S_poll)
 
